@@ -148,7 +148,7 @@ theorem skipExtras_length_le (isExtra : Nat → Bool) : ∀ input, (skipExtras i
     · simp only [List.length_cons]; omega
     · simp
 
-theorem tokenizeAux_fuel (choose : List Nat → Option Cand) (isExtra : Nat → Bool) :
+theorem tokenizeAux_fuel (choose : Nat → List Nat → Option Cand) (isExtra : Nat → Bool) :
     ∀ (f1 f2 pos : Nat) (input : List Nat), input.length < f1 → input.length < f2 →
       tokenizeAux choose isExtra f1 pos input = tokenizeAux choose isExtra f2 pos input := by
   intro f1
@@ -164,7 +164,7 @@ theorem tokenizeAux_fuel (choose : List Nat → Option Cand) (isExtra : Nat → 
       · rfl
       · rename_i hne
         simp only [lexOne]
-        cases hc : choose (skipExtras isExtra input) with
+        cases hc : choose (input.length - (skipExtras isExtra input).length) (skipExtras isExtra input) with
         | none => rfl
         | some c =>
           obtain ⟨i, n⟩ := c
